@@ -217,7 +217,11 @@ def check_kind_spelling(case):
         buf = io.BytesIO() if kind in BINARY else io.StringIO()
         try:
             call(qr.save, buf, kind=k, **case.get('opts', {}))
-            outs.append(as_bytes(buf.getvalue()))
+            data = as_bytes(buf.getvalue())
+            if kind == 'svgz':
+                import gzip
+                data = gzip.decompress(data)
+            outs.append(data)
         except Refused as ex:
             outs.append(('refused', str(ex)))
         except Crash as ex:
@@ -284,7 +288,7 @@ def serializer_grid():
             cases.append({'what': 'serializer', 'kind': kind, 'opts': {'border': bad}, 'bad': 'border', 'micro': True, 'route': 'path'})
     for bad in ('foo', '', 'jpg', 'svgx', 'PNGG', 'p n g'):
         cases.append({'what': 'serializer', 'kind': bad, 'opts': {}, 'bad': 'kind'})
-    for kind in ALL_KINDS:
+    for kind in ALL_KINDS + ('svgz',):
         cases.append({'what': 'kind-spelling', 'kind': kind})
     return cases
 
